@@ -22,7 +22,7 @@ CHECKS = {
               'a case is non-trivial iff at least one request conflicted (double vote / surround, by the pairwise oracle) '
               'with a signature released earlier in the same history; distinct = sha256 of the case JSON'),
         essential=['has-batch', 'batch-repeats-key', 'single+batch-on-one-key', 'restart-after-release',
-                   'uses-value>=2^63', 'request-at-0-after-release-at-0', 'by-public-key', 'via-grpc-handler'],
+                   'uses-value>=2^63', 'request-at-0-after-release-at-0', 'by-public-key', 'via-grpc-handler', 'public-key-with-trailing-bytes'],
         assumptions=['herumi BLS and badger are trusted', 'key material is a fixed pool of 4 keys',
                      'released = response carries a non-empty signature'],
     ),
@@ -38,7 +38,7 @@ CHECKS = {
               'attestations as noise, restarts; slots from a collision-prone mixture incl. >=2^63); non-trivial iff '
               'at least one proposal request was at or below a slot already released for that key'),
         essential=['restart-after-release', 'uses-value>=2^63', 'request-at-0-after-release-at-0', 'by-public-key',
-                   'via-grpc-handler'],
+                   'via-grpc-handler', 'public-key-with-trailing-bytes'],
         assumptions=['herumi BLS and badger are trusted', 'released = response carries a non-empty signature'],
     ),
 }
@@ -56,7 +56,7 @@ CHECKS['C08'] = dict(
           'uint64 extremes for slot/index/proposer, advancing epochs per key; non-trivial iff a batch larger than GOMAXPROCS was signed at every '
           'position or a signed request carried an extreme field value; distinct = sha256 of the case JSON'),
     essential=['batch-larger-than-gomaxprocs-all-signed', 'batch>=100', 'endpoint-attest', 'endpoint-attests', 'endpoint-propose', 'endpoint-sign',
-               'endpoint-multisign', 'gomaxprocs-01'],
+               'endpoint-multisign', 'gomaxprocs-01', 'batch-sharing-data-identical', 'batch-sharing-data-one-field'],
     assumptions=['herumi BLS verification is trusted', 'requests are well-formed (32-byte roots and domains)'],
 )
 
@@ -273,7 +273,7 @@ CHECKS['C14'] = dict(
     parts=[part('TestC14', 120, 1500, qshards=2)],
     rule=('a case is one generated account plus one routed conflicting pair; non-trivial iff the account was generated and both duties were offered to at least t instances each; distinct = sha256 of the case JSON'),
     essential=['both-duties-offered-to-a-threshold-of-instances', 'one-duty-reached-threshold', 'concurrent-delivery', 'conflict-double-vote', 'conflict-a-surrounds-b',
-               'conflict-b-surrounds-a', 'conflict-two-blocks', 'generation-refused'],
+               'conflict-b-surrounds-a', 'conflict-two-blocks', 'generation-refused', 'instance-reached-over-single-and-batch-calls'],
     assumptions=['herumi BLS is trusted'],
 )
 
@@ -340,7 +340,7 @@ CHECKS['C19'] = dict(
     level_note='The TLS library is trusted; what is exercised is configuration (client-auth mode, CA pool) and identity extraction. Certificates are minted relative to the current time with +-1 h / +-24 h windows.',
     parts=[part('TestC19', 500, 5000, qshards=2)],
     rule=('a case is 1-4 calls on fresh connections; non-trivial iff it contains a must-refuse call bearing a permitted or peer name, or a served call whose CN and SAN differ; distinct = sha256 of the case JSON'),
-    essential=['calls-that-must-be-refused', 'must-refuse-calls-bearing-a-permitted-name', 'accepted-credential-served', 'served-calls-with-cn-and-san-differing',
+    essential=['calls-that-must-be-refused', 'must-refuse-calls-bearing-a-permitted-name', 'accepted-credential-served', 'served-calls-with-cn-and-san-differing', 'served-calls-with-an-extra-certificate-naming-someone-else',
                'cred:plaintext/ca', 'cred:tls-no-cert/ca', 'cred:tls-cert/other-ca', 'cred:tls-cert/self-signed', 'cred:tls-cert/ca'] +
               ['method:' + m for m in ['Signer/Sign', 'Signer/Multisign', 'Signer/SignBeaconAttestation', 'Signer/SignBeaconAttestations', 'Signer/SignBeaconProposal', 'Lister/ListAccounts',
                'AccountManager/Unlock', 'AccountManager/Lock', 'AccountManager/Generate', 'WalletManager/Unlock', 'WalletManager/Lock', 'DKG/Prepare', 'DKG/Execute', 'DKG/Commit', 'DKG/Abort', 'DKG/Contribute']],
